@@ -63,12 +63,12 @@ SENTINELS = {
     "delete_chunks_after_training": [False], "is_rgb": [True], "scale": [0.5, 2.0], "max_height": [128, 333], "max_width": [96, 512], "crop_hw": [(160, 160), (64, 96)],
     "min_crop_size": [32, None], "use_augmentations_train": [True],
     "init_weight": ["xavier"], "pretrained_backbone_weights": ["bb.ckpt", "bb2.ckpt"], "pretrained_head_weights": ["hd.ckpt", "hd2.ckpt"],
-    "batch_size": [1, 16], "shuffle_train": [False], "num_workers": [2, 5], "ckpt_save_top_k": [0, 3, -1], "ckpt_save_last": [False], "trainer_num_devices": [1, 2],
+    "batch_size": [1, 16], "shuffle_train": [False], "num_workers": [0, 2, 5], "ckpt_save_top_k": [0, 3, -1], "ckpt_save_last": [False], "trainer_num_devices": [1, 2],
     "trainer_accelerator": ["cpu", "gpu"], "enable_progress_bar": [True], "steps_per_epoch": [3, 50], "max_epochs": [1, 7], "seed": [0, 42], "use_wandb": [True],
     "save_ckpt": [True], "save_ckpt_path": ["ck/a", "ck/b"], "resume_ckpt_path": ["r.ckpt", "r2.ckpt"], "wandb_entity": ["ent", "ent2"], "wandb_project": ["proj", "proj2"],
     "wandb_name": ["run", "run2"], "wandb_api_key": ["KEY123", "KEY456"], "wandb_mode": ["offline", "online"], "wandb_resume_prv_runid": ["abc", "def"],
     "wandb_group_name": ["grp", "grp2"], "optimizer": ["AdamW"], "learning_rate": [1e-4, 0.05], "amsgrad": [True], "early_stopping": [True],
-    "early_stopping_min_delta": [1e-3, 0.5], "early_stopping_patience": [0, 9],
+    "early_stopping_min_delta": [0.0, 1e-3, 0.5], "early_stopping_patience": [0, 9],
 }
 
 
